@@ -94,6 +94,32 @@ func canonD(v ssa.Value, depth int) string {
 			}
 		}
 	}
+	// stable names for values that come from source variables / calls, so that keys
+	// do not depend on SSA register numbering
+	switch x := v.(type) {
+	case *ssa.Phi:
+		if x.Comment != "" {
+			return "φ" + x.Comment
+		}
+	case *ssa.Alloc:
+		if x.Comment != "" {
+			return "&" + x.Comment
+		}
+	case *ssa.Call:
+		name := "call"
+		if f := x.Common().StaticCallee(); f != nil {
+			name = f.Name()
+		} else if b, ok := x.Common().Value.(*ssa.Builtin); ok {
+			name = b.Name()
+		}
+		var args []string
+		for _, a := range x.Common().Args {
+			args = append(args, canonD(a, depth+1))
+		}
+		return name + "(" + strings.Join(args, ",") + ")"
+	case *ssa.Extract:
+		return canonD(x.Tuple, depth+1) + fmt.Sprintf("#%d", x.Index)
+	}
 	return "%" + v.Name()
 }
 
